@@ -52,6 +52,12 @@ Judge(ln) ==
     \* the name as displayed (blanks removed) is a name of exactly that number - also when several goroutines format at once
     [] ln.ev = "disp" ->
          (IF ln.s \in Valid /\ Value(ln.s) = ln.n THEN {} ELSE {"C11_NumberToName"})
+    \* the name where it is used: as the note of a key in a configuration, with or without a channel offset behind it
+    [] ln.ev = "cfg" ->
+         (IF ln.s \in Valid
+            THEN (IF ln.ok /\ ln.v = Value(ln.s) /\ ln.off = (IF ln.want < 0 THEN 0 ELSE ln.want) THEN {} ELSE {"C11_NameToNumber"})
+            ELSE IF ln.s \in OpenSpellings THEN {}
+                   ELSE (IF ln.ok THEN {"C11_NothingElse"} ELSE {}))
     [] ln.ev = "crash" -> {"X_Crash"}
     [] OTHER -> {}
 
